@@ -6,6 +6,7 @@ import Qentem.Proofs.BigIntScan
 import Qentem.Proofs.BigIntWide
 import Qentem.Proofs.BigIntWideOps
 import Qentem.Proofs.BigIntDivHand
+import Qentem.Proofs.BigIntCopy
 /-! C19 — BigInt holds the exact mathematical integer after every operation that fits.
 
 `Inv W s` (Proofs/BigIntBasic) is the representation invariant: n ≥ 1 words below 2^W, the words above
@@ -310,6 +311,95 @@ theorem C19_sequences (W n : Nat) (hW : 0 < W) (hn : 0 < n) (ops : List Op) (a' 
 200 + 255 = 455; ·200 = 91000; /9 = 10111 rem 1; 10111 > 9; log2 10111 = 13. -/
 example : specRun 8 4 0 [.assign 8 200, .bop .add 8 255, .mul 200, .div 9, .cmp .gt 9, .flb]
     = some (10111, [.none, .none, .none, .nat 1, .bool true, .nat 13]) := by decide
+
+/-! ### Two objects of one instantiation: copy and move assignment -/
+
+/-- The exact-integer meaning of a sequence over two objects holding `a` and `b`. -/
+def specRun2 (W n : Nat) : Nat → Nat → List Op2 → Option (Nat × Nat × List Ret)
+  | a, b, [] => some (a, b, [])
+  | a, b, o :: os =>
+    match specStep2 W n a b o with
+    | none => none
+    | some (a1, b1, r) =>
+      match specRun2 W n a1 b1 os with
+      | none => none
+      | some (a2, b2, rs) => some (a2, b2, r :: rs)
+
+def Typed2 (W : Nat) : Op2 → Prop
+  | .on o => Typed W o
+  | _ => True
+
+/-- One step over two objects (an operation on `x`, `t = x`, `x = t`, `x = std::move(t)`): exact, in
+bounds, both invariants re-established. -/
+theorem step2_exact (c : Cfg) (hg : GoodCfg c) (o : Op2) (ht : Typed2 c.W o) (p : Pair) (a' b' : Nat) (r : Ret)
+    (hx : Inv c.W p.x) (hy : Inv c.W p.t) (hl : p.t.words.length = p.x.words.length)
+    (hspec : specStep2 c.W p.x.words.length (p.x.val c.W) (p.t.val c.W) o = some (a', b', r)) :
+    ∃ p', step2 c p o = .ok (p', r) ∧ Inv c.W p'.x ∧ Inv c.W p'.t ∧ p'.x.words.length = p.x.words.length ∧
+      p'.t.words.length = p.x.words.length ∧ p'.x.val c.W = a' ∧ p'.t.val c.W = b' := by
+  cases o with
+  | on o' =>
+    simp only [specStep2] at hspec
+    split at hspec
+    · rename_i a1 r1 hs1
+      simp only [Option.some.injEq, Prod.mk.injEq] at hspec
+      obtain ⟨rfl, rfl, rfl⟩ := hspec
+      obtain ⟨s', hrun, hinv, hl', hv⟩ := C19 c hg o' ht p.x a1 r1 hx hs1
+      exact ⟨⟨s', p.t⟩, by simp [step2, hrun, bind, Except.bind, pure, Except.pure], hinv, hy, hl', hl, hv, rfl⟩
+    · exact absurd hspec (by simp)
+  | save =>
+    simp only [specStep2, Option.some.injEq, Prod.mk.injEq] at hspec
+    obtain ⟨rfl, rfl, rfl⟩ := hspec
+    obtain ⟨d', hrun, hinv, hl', hv⟩ := copy_spec p.t p.x hy hx hl
+    exact ⟨⟨p.x, d'⟩, by simp [step2, hrun, bind, Except.bind, pure, Except.pure], hx, hinv, rfl,
+      (by show d'.words.length = _; omega), rfl, hv⟩
+  | load =>
+    simp only [specStep2, Option.some.injEq, Prod.mk.injEq] at hspec
+    obtain ⟨rfl, rfl, rfl⟩ := hspec
+    obtain ⟨d', hrun, hinv, hl', hv⟩ := copy_spec p.x p.t hx hy hl.symm
+    exact ⟨⟨d', p.t⟩, by simp [step2, hrun, bind, Except.bind, pure, Except.pure], hinv, hy, hl', hl, hv, rfl⟩
+  | move =>
+    simp only [specStep2, Option.some.injEq, Prod.mk.injEq] at hspec
+    obtain ⟨rfl, rfl, rfl⟩ := hspec
+    obtain ⟨d', hrun, hinv, hl', hv⟩ := copy_spec p.x p.t hx hy hl.symm
+    obtain ⟨t', hrun2, hinv2, hl2, hv2⟩ := clear_spec (W := c.W) p.t hy
+    exact ⟨⟨d', t'⟩, by simp [step2, hrun, hrun2, bind, Except.bind, pure, Except.pure], hinv, hinv2, hl',
+      (by show t'.words.length = _; omega), hv, hv2⟩
+
+/-- **C19 over operation sequences on two objects** (everything `BigInt` offers, including copy and
+move assignment), for the configuration the C++ selects for `W`-bit words, any `n ≥ 1`. -/
+theorem C19_sequences2 (W n : Nat) (hW : 0 < W) (hn : 0 < n) : ∀ (ops : List Op2) (p : Pair) (a' b' : Nat)
+    (rs : List Ret), (∀ op ∈ ops, Typed2 W op) → Inv W p.x → Inv W p.t → p.x.words.length = n →
+    p.t.words.length = n → specRun2 W n (p.x.val W) (p.t.val W) ops = some (a', b', rs) →
+    ∃ p', run2 (Cfg.std W) p ops = .ok (p', rs) ∧ Inv W p'.x ∧ Inv W p'.t ∧ p'.x.words.length = n ∧
+      p'.t.words.length = n ∧ p'.x.val W = a' ∧ p'.t.val W = b'
+  | [], p, a', b', rs, _, hx, hy, hlx, hly, hspec => by
+    simp only [specRun2, Option.some.injEq, Prod.mk.injEq] at hspec
+    obtain ⟨rfl, rfl, rfl⟩ := hspec
+    exact ⟨p, rfl, hx, hy, hlx, hly, rfl, rfl⟩
+  | o :: os, p, a', b', rs, hall, hx, hy, hlx, hly, hspec => by
+    have hg : GoodCfg (Cfg.std W) := ⟨hW, fun hh => by
+      have h64 : W = 64 := by simpa [Cfg.std] using hh
+      show W % 2 = 0
+      rw [h64]⟩
+    simp only [specRun2] at hspec
+    split at hspec
+    · exact absurd hspec (by simp)
+    · rename_i a1 b1 r1 hs1
+      split at hspec
+      · exact absurd hspec (by simp)
+      · rename_i a2 b2 rs2 hs2
+        simp only [Option.some.injEq, Prod.mk.injEq] at hspec
+        obtain ⟨rfl, rfl, rfl⟩ := hspec
+        obtain ⟨p1, hstep, hx1, hy1, hlx1, hly1, hvx1, hvy1⟩ := step2_exact (Cfg.std W) hg o (hall o (by simp)) p a1 b1 r1
+          hx hy (by omega) (by rw [hlx]; exact hs1)
+        obtain ⟨p2, hrun, hx2, hy2, hlx2, hly2, hvx2, hvy2⟩ := C19_sequences2 W n hW hn os p1 a2 b2 rs2
+          (fun op hop => hall op (by simp [hop])) hx1 hy1 (by omega) (by omega)
+          (by
+            have e1 : p1.x.val W = a1 := hvx1
+            have e2 : p1.t.val W = b1 := hvy1
+            rw [e1, e2]; exact hs2)
+        refine ⟨p2, ?_, hx2, hy2, hlx2, hly2, hvx2, hvy2⟩
+        simp [run2, hstep, hrun, bind, Except.bind, pure, Except.pure]
 
 /-! TEST (labelled as such, not a theorem about all inputs): the half-word divide at h = 2 (4-bit words)
 evaluated by the kernel on its whole precondition domain — d in 1..15, hi < d, lo in 0..15. -/
